@@ -57,7 +57,7 @@ def compare(impl, model, prefixes=MODELLED):
     return sorted(a - b), sorted(b - a)
 
 
-def generate(ctx, n, salt, out, gen=None, **kw):
+def generate(ctx, n, salt, out, gen=None, layout=None, **kw):
     """n worlds under module `out` (one go.mod); returns (worlds, sites, stats)"""
     rng = lib.rng_for(ctx, salt)
     worldgen.write_module(out, "w")
@@ -66,7 +66,7 @@ def generate(ctx, n, salt, out, gen=None, **kw):
     for i in range(n):
         wid = "w%04d" % i
         W = (gen or worldgen.full_world)(rng, wid, "w", stats=stats, **kw)
-        s, files = worldgen.render(W, out, rng)
+        s, files = worldgen.render(W, out, rng, layout=layout)
         worlds.append(W)
         sites.update(s)
     return worlds, sites, stats
